@@ -155,3 +155,32 @@ bridge_poly!(Ratio<BigInt>, "Poly<x,Ratio<BigInt>>");
 bridge_poly!(FF2, "Poly<x,FF2>");
 bridge_poly!(FF<3>, "Poly<x,FF<3>>");
 bridge_poly!(FF<5>, "Poly<x,FF<5>>");
+
+/// Z[H] = Poly<'H', i64>; reference = polynomials over Q with integer coefficients.
+impl Bridge for Poly<'H', i64> {
+    type Ref = UPoly<Q>;
+    const NAME: &'static str = "Poly<H,i64>";
+    fn to_ref(&self) -> UPoly<Q> {
+        let mut c = vec![];
+        for (x, a) in self.iter() {
+            let d: usize = x.deg();
+            if c.len() <= d {
+                c.resize(d + 1, Q::int(0));
+            }
+            c[d] = c[d].add(&Q::from_z(a.to_ref()));
+        }
+        UPoly::new(c)
+    }
+    fn try_from_ref(r: &UPoly<Q>) -> Option<Self> {
+        let mut terms = vec![];
+        for (i, a) in r.c.iter().enumerate() {
+            if !a.is_zero() {
+                if a.d != BigInt::from(1) {
+                    return None;
+                }
+                terms.push((Var::<'H', usize>::from(i), i64::try_from_ref(&a.n)?));
+            }
+        }
+        Some(terms.into_iter().collect())
+    }
+}
